@@ -316,6 +316,7 @@ def replay_transition(case) -> List[Tuple[str, str]]:
                     fails += [(c if c != "ResultIsTheTopK" else "ShardedSearchEqualsWhole", m) for c, m in sub]
                 pool.extend(hits)
             pool.sort(key=lambda r: (-r.score, str(r.id)))
+            pool = _first_per_id(pool)         # the cross-shard merge keeps an id once (its best hit)
             merged = pool[: obs["k"]]
             if [(r.id, r.score) for r in merged] != [(r.id, r.score) for r in refs]:
                 fails.append(("ShardedSearchEqualsWhole", f"{where} owner={OWNER[obs['ow']]!r} q={obs['q']} k={obs['k']} tier={TIER[obs['tier']]} hints={hints_of(obs['h'])} "
@@ -402,7 +403,24 @@ def ref_search(model, part, universe, owner, q, k, tier, hints, now_h) -> List[i
     for a, b in zip(cand, cand[1:]):
         if a[0] == b[0] and (a[4], a[5]) != (b[4], b[5]) and not (a[4] == 0 and b[4] == 0):
             raise Guard("equal cosines from different vectors")
-    return [t[3] for t in cand[:max(k, 0)]]
+    # (repo fix 397ebc8) the k best are k distinct ids: only the best-ranked row of an id counts
+    seen_ids, best = set(), []
+    for t in cand:
+        if t[1] in seen_ids:
+            continue
+        seen_ids.add(t[1])
+        best.append(t)
+    return [t[3] for t in best[:max(k, 0)]]
+
+
+def _first_per_id(hits):
+    seen, out = set(), []
+    for h in hits:
+        if str(h.id) in seen:
+            continue
+        seen.add(str(h.id))
+        out.append(h)
+    return out
 
 
 def ref_shards(n: int, s) -> Tuple[List[List[int]], bool]:
@@ -507,6 +525,7 @@ def random_history(args) -> List[Tuple[str, str]]:
                                 fails.append(("ShardedSearchEqualsWhole", f"{desc}: shard {part} returns {[x.text for x in hits]}, reference {[model[i]['ep']['text'] for i in wh]}"))
                             pool.extend(hits)
                         pool.sort(key=lambda x: (-x.score, str(x.id)))
+                        pool = _first_per_id(pool)
                         if [(x.id, x.score) for x in pool[:max(k, 0)]] != [(x.id, x.score) for x in refs]:
                             fails.append(("ShardedSearchEqualsWhole", f"{desc}: suggested={s} shards {parts}: merged {[(x.id, x.text) for x in pool[:max(k, 0)]]}, whole index {[(x.id, x.text) for x in refs]}"))
                         fails += _pure(idx, snap, what + " sharded search")
